@@ -1,15 +1,15 @@
 SPECIFICATION Spec
 CONSTANTS
- Copies = 1  Pad = 0  Concat = FALSE
+ Copies = 2  Pad = 4  Concat = TRUE
  EarlyTailError = FALSE
  MaxReinit = 0
  CountCalls = TRUE
  NW = 2  HdrSz = 1  TailSz = 1  TailOk = TRUE  Chunk = 1
- Blocks <- B_ok3
- FileLen = 7
+ Blocks <- B_cat
+ FileLen <- FullFile
  Timeout = FALSE  FailFast = FALSE  Spurious = FALSE  MemT = 100
  Gives = {0, 1, 100}  Spaces = {0, 1, 100}
- MaxCalls = 10
+ MaxCalls = 9
 CONSTRAINT CallBound
 VIEW MCView
 INVARIANTS OutputIsPrefix TerminalEquivalence BufErrorOnlyWhenStarved NoUseAfterFree FailedWorkerNotReused QueueOk DocumentedCodes EndJoinsAll
